@@ -39,14 +39,13 @@ KMAX = {"children_rec": 26, "iter:name,ppid": 38, "as_dict": 64}           # upp
 PAIRS = (["name", "ppid"], ["uids", "gids", "username"], ["memory_full_info", "memory_maps", "memory_info"],
          ["exe", "cmdline", "status"], ["open_files", "num_fds", "threads"])
 TREE = ("parent", "parents", "children", "children_rec")    # calls that query other Process objects too
-VIA_PPID = ("ppid", "parent", "parents", "children", "children_rec")
 ALLOWED = ("NoSuchProcess", "ZombieProcess", "AccessDenied")
 
 RULE = ("every Linux Process query reachable through psutil.Process (all of psutil._as_dict_attrnames, is_running, parent, "
         "parents, children, children(recursive), as_dict() in full and for attribute groups sharing a oneshot cache, "
         "process_iter(attrs)) x base kind {live, kernel thread, zombie, live with racing descriptor/thread/smaps_rollup} x "
         "EVERY access index k of the call (count taken from a dry run of the model / implementation) x fault "
-        "{vanish at k, EACCES at k, EPERM at k (quick: odd k only)}; thorough adds every pair (deny at i, vanish at j>i). After every vanish all "
+        "{vanish at k, EACCES at k, EPERM at k (quick: every fourth k)}; thorough adds every pair (deny at i, vanish at j>i). After every vanish all "
         "OS-consulting queries are called again on the same object. A case is non-trivial when the fault fires "
         "(k below the number of accesses); distinct = distinct (kind, method, fault schedule).")
 TRUSTED = ["correspondence harness props/C03.py + props/_c03_world.py (fake procfs, access-counting fault shim over "
@@ -61,7 +60,7 @@ ASSUMPTIONS = ["the first read of an opened procfs file is the only read access 
                "data returned by a successful access is well formed (parsing of malformed content is C06/C12/C13/C14)",
                "refusals (EACCES/EPERM) are injected on per-process paths only, not on global procfs files",
                "CPython exception matching and the os/io layer are modelled, not verified"]
-EXHAUSTIVE = {"quick": "all access indexes x {vanish, EACCES} (EPERM at every odd index) for every scripted and oracle-only method and all four base kinds",
+EXHAUSTIVE = {"quick": "all access indexes x {vanish, EACCES} (EPERM at every fourth index) for every scripted and oracle-only method and all four base kinds",
               "thorough": "the same plus all two-fault sequences (deny at i, vanish at j>i)"}
 
 
@@ -178,7 +177,7 @@ def gen_cases(rng, tier):
         for k in ks:
             mk("V", b, m, o, k, [])
             mk("D-EACCES", b, m, o, None, [[k, "EACCES"]])
-            if tier != "quick" or k % 2 == 1:      # both errnos are PermissionError to Python; quick alternates
+            if tier != "quick" or k % 4 == 1:      # both errnos are PermissionError to Python; quick samples EPERM
                 mk("D-EPERM", b, m, o, None, [[k, "EPERM"]])
         if tier == "thorough":
             for i in range(n):
@@ -259,46 +258,6 @@ def oracle(case, impl):
     return None
 
 
-def _involves(m, names):
-    base = m.split(":")[0]
-    if base in names:
-        return True
-    if m.startswith(("as_dict:", "iter:")):
-        return any(n in names for n in m.split(":", 1)[1].split(","))
-    return False
-
-
-def finding_key(case, coq):
-    """Class of a known finding, decided from the input (method, base kind, fault schedule) through the faithful
-    model's answer for that input; for the two oracle-only calls from the fault position."""
-    d = case.get("d") or []
-    if not d:
-        return None
-    model = coq.get("model") if isinstance(coq, dict) else None
-    m = case["m"]
-    k = d[0][0]
-    if model is None:
-        if m == "children_rec" and (case.get("v") is None or case["v"] > k):
-            if k in (0, 1):
-                return "is_running-probe-denied"
-            if 3 <= k <= 12:
-                return "children-ppid_map-denied"
-        if m.startswith("iter:") and _involves(m, VIA_PPID) and (case.get("v") is None or case["v"] > k):
-            return "is_running-probe-denied"
-        return None
-    out, gone = model[0], model[2]
-    if out["t"] != "Exc":
-        return None
-    name = out["a"][0]["t"]
-    if name == "PermissionError" and m in ("children",):
-        return "children-ppid_map-denied"
-    if name == "FileNotFoundError" and case["base"] == "kthread" and _involves(m, ("exe",)):
-        return "exe-kthread-lexists-denied"
-    if name == "NoSuchProcess" and not gone and _involves(m, VIA_PPID):
-        return "is_running-probe-denied"
-    return None
-
-
 def judge(case, coq, impl):
     from pv.core import Verdict
     if isinstance(impl, dict) and impl.get("t") == "Skip":
@@ -340,8 +299,8 @@ MANIFEST = {
             "accesses, arbitrary base answers within the fault model), a computable guard analysis and its soundness theorem "
             "for ALL worlds; closed theorems that every single-process Linux query script is guarded (value or NoSuchProcess-"
             "when-gone / ZombieProcess / AccessDenied with the object's pid; NoSuchProcess once gone), refuted theorems with "
-            "witnesses for the three defects (children/ppid_map PermissionError, exe() on a kernel thread FileNotFoundError, "
-            "ppid()/parent()/children() NoSuchProcess for a live process after one refused read). Tie to the code: every "
+            "witnesses about the code before the three repairs (children/ppid_map PermissionError, exe() on a kernel thread "
+            "FileNotFoundError, ppid()/parent()/children() NoSuchProcess for a live process after one refused read). Tie to the code: every "
             "access index x fault x base kind is run on the real psutil and outcome + complete access sequence are compared.",
     "note": "Trusted: Coq kernel + vm_compute; the fault model (Spec.v base_ok / Model.v answer); hand-written scripts "
             "(tied by exhaustive fault enumeration of access sequences); harness shim. children(recursive=True) and "
